@@ -1,49 +1,67 @@
 //! Continuous / discrete samplers on a scripted word stream.
-//! line:  samp <family> <f32|f64> <p1,p2,..(hex bits, or decimal u64 for integer params)> <seedhex> <hexwords|-> [nsamples]
+//! line:  samp <family> <f32|f64|u64> <p1,p2,..(hex bits; decimal u64 for integer params)> <seedhex> <hexwords|-> [nsamples]
 //! output: per sample `<value>:<words used so far>` joined by ';'  (value = x+hex bits for floats, decimal for integers)
-//!         | E:<ctor error Debug> | panic[:<partial>]
+//!         | E:<ctor error Debug> | ctorpanic | …;panic
+//! line:  sweep <family> f32|f64 <params> <seedhex> <pos> [dumpfile]
+//!         all 2^24 high-bit patterns of the word at position <pos> (low 40 bits and other words from the seed)
+//! line:  many <family> <type> <params> <seedhex> <n>      n samples on one seeded stream: support / finiteness / words statistics
 use crate::rng::{ScriptRng, parse_words};
 use rand_distr::*;
+use std::io::Write;
 use std::panic::{AssertUnwindSafe, catch_unwind};
 
 pub trait FB: num_traits::Float + num_traits::FloatConst + core::fmt::Debug + 'static {
     fn from_hex(s: &str) -> Self;
     fn hex(&self) -> String;
+    fn to64(&self) -> f64;
+    fn ulp_of(&self) -> f64;
 }
 impl FB for f32 {
     fn from_hex(s: &str) -> Self { f32::from_bits(u32::from_str_radix(s.trim_start_matches('x'), 16).expect("f32 bits")) }
     fn hex(&self) -> String { format!("x{:08x}", self.to_bits()) }
+    fn to64(&self) -> f64 { *self as f64 }
+    fn ulp_of(&self) -> f64 { let a = self.abs(); (f32::from_bits(a.to_bits() + 1) - a) as f64 }
 }
 impl FB for f64 {
     fn from_hex(s: &str) -> Self { f64::from_bits(u64::from_str_radix(s.trim_start_matches('x'), 16).expect("f64 bits")) }
     fn hex(&self) -> String { format!("x{:016x}", self.to_bits()) }
+    fn to64(&self) -> f64 { *self }
+    fn ulp_of(&self) -> f64 { let a = self.abs(); f64::from_bits(a.to_bits() + 1) - a }
 }
 
-fn draw<T, D: Distribution<T>>(d: &D, rng: &mut ScriptRng, n: usize, show: impl Fn(&T) -> String) -> String {
-    let mut out: Vec<String> = vec![];
-    for _ in 0..n {
-        match catch_unwind(AssertUnwindSafe(|| d.sample(rng))) {
-            Ok(v) => out.push(format!("{}:{}", show(&v), rng.count)),
-            Err(_) => {
-                out.push("panic".into());
-                break;
-            }
+/// what a sampler returns, uniformly
+#[derive(Clone, Copy, Debug)]
+pub enum Val { F(f64, u64 /*bits*/, bool /*is f32*/), U(u64) }
+impl Val {
+    fn show(&self) -> String {
+        match *self {
+            Val::F(_, b, true) => format!("x{:08x}", b),
+            Val::F(_, b, false) => format!("x{:016x}", b),
+            Val::U(u) => format!("{}", u),
         }
     }
-    out.join(";")
+}
+pub trait IntoVal { fn val(&self) -> Val; }
+impl IntoVal for f32 { fn val(&self) -> Val { Val::F(*self as f64, self.to_bits() as u64, true) } }
+impl IntoVal for f64 { fn val(&self) -> Val { Val::F(*self, self.to_bits(), false) } }
+impl IntoVal for u64 { fn val(&self) -> Val { Val::U(*self) } }
+
+/// a constructed distribution behind a uniform interface
+pub struct Dyn(pub Box<dyn Fn(&mut ScriptRng) -> Val>);
+
+fn boxed<T: IntoVal + 'static, D: Distribution<T> + 'static>(d: D) -> Dyn {
+    Dyn(Box::new(move |rng: &mut ScriptRng| d.sample(rng).val()))
 }
 
-macro_rules! ctor {
-    ($e:expr, $rng:expr, $n:expr, $show:expr) => {
-        match catch_unwind(AssertUnwindSafe(|| $e)) {
-            Ok(Ok(d)) => draw(&d, $rng, $n, $show),
-            Ok(Err(e)) => format!("E:{:?}", e),
-            Err(_) => "ctorpanic".to_string(),
-        }
-    };
+macro_rules! mk {
+    ($e:expr) => { match catch_unwind(AssertUnwindSafe(|| $e)) {
+        Ok(Ok(d)) => Ok(boxed(d)),
+        Ok(Err(e)) => Err(format!("E:{:?}", e)),
+        Err(_) => Err("ctorpanic".to_string()),
+    } };
 }
 
-pub fn cont<F: FB>(family: &str, ps: &[&str], rng: &mut ScriptRng, n: usize) -> String
+pub fn build_cont<F: FB + IntoVal>(family: &str, ps: &[&str]) -> Result<Dyn, String>
 where
     StandardNormal: Distribution<F>,
     Exp1: Distribution<F>,
@@ -52,59 +70,260 @@ where
     StandardUniform: Distribution<F>,
 {
     let p: Vec<F> = ps.iter().map(|s| F::from_hex(s)).collect();
-    let sh = |v: &F| v.hex();
     match family {
-        "stdnormal" => draw(&StandardNormal, rng, n, sh),
-        "exp1" => draw(&Exp1, rng, n, sh),
-        "normal" => ctor!(Normal::new(p[0], p[1]), rng, n, sh),
-        "lognormal" => ctor!(LogNormal::new(p[0], p[1]), rng, n, sh),
-        "exp" => ctor!(Exp::new(p[0]), rng, n, sh),
-        "gamma" => ctor!(Gamma::new(p[0], p[1]), rng, n, sh),
-        "chisq" => ctor!(ChiSquared::new(p[0]), rng, n, sh),
-        "studentt" => ctor!(StudentT::new(p[0]), rng, n, sh),
-        "fisherf" => ctor!(FisherF::new(p[0], p[1]), rng, n, sh),
-        "beta" => ctor!(Beta::new(p[0], p[1]), rng, n, sh),
-        "pert" => ctor!(Pert::new(p[0], p[1]).with_shape(p[3]).with_mode(p[2]), rng, n, sh),
-        "triangular" => ctor!(Triangular::new(p[0], p[1], p[2]), rng, n, sh),
-        "cauchy" => ctor!(Cauchy::new(p[0], p[1]), rng, n, sh),
-        "pareto" => ctor!(Pareto::new(p[0], p[1]), rng, n, sh),
-        "weibull" => ctor!(Weibull::new(p[0], p[1]), rng, n, sh),
-        "gumbel" => ctor!(Gumbel::new(p[0], p[1]), rng, n, sh),
-        "frechet" => ctor!(Frechet::new(p[0], p[1], p[2]), rng, n, sh),
-        "skewnormal" => ctor!(SkewNormal::new(p[0], p[1], p[2]), rng, n, sh),
-        "invgauss" => ctor!(InverseGaussian::new(p[0], p[1]), rng, n, sh),
-        "nig" => ctor!(NormalInverseGaussian::new(p[0], p[1]), rng, n, sh),
-        "poisson" => ctor!(Poisson::new(p[0]), rng, n, sh),
-        "zeta" => ctor!(Zeta::new(p[0]), rng, n, sh),
-        "zipf" => ctor!(Zipf::new(p[0], p[1]), rng, n, sh),
-        other => format!("badfamily:{}", other),
+        "stdnormal" => Ok(boxed::<F, _>(StandardNormal)),
+        "exp1" => Ok(boxed::<F, _>(Exp1)),
+        "normal" => mk!(Normal::new(p[0], p[1])),
+        "lognormal" => mk!(LogNormal::new(p[0], p[1])),
+        "exp" => mk!(Exp::new(p[0])),
+        "gamma" => mk!(Gamma::new(p[0], p[1])),
+        "chisq" => mk!(ChiSquared::new(p[0])),
+        "studentt" => mk!(StudentT::new(p[0])),
+        "fisherf" => mk!(FisherF::new(p[0], p[1])),
+        "beta" => mk!(Beta::new(p[0], p[1])),
+        "pert" => mk!(Pert::new(p[0], p[1]).with_shape(p[3]).with_mode(p[2])),
+        "triangular" => mk!(Triangular::new(p[0], p[1], p[2])),
+        "cauchy" => mk!(Cauchy::new(p[0], p[1])),
+        "pareto" => mk!(Pareto::new(p[0], p[1])),
+        "weibull" => mk!(Weibull::new(p[0], p[1])),
+        "gumbel" => mk!(Gumbel::new(p[0], p[1])),
+        "frechet" => mk!(Frechet::new(p[0], p[1], p[2])),
+        "skewnormal" => mk!(SkewNormal::new(p[0], p[1], p[2])),
+        "invgauss" => mk!(InverseGaussian::new(p[0], p[1])),
+        "nig" => mk!(NormalInverseGaussian::new(p[0], p[1])),
+        "poisson" => mk!(Poisson::new(p[0])),
+        "zeta" => mk!(Zeta::new(p[0])),
+        "zipf" => mk!(Zipf::new(p[0], p[1])),
+        other => Err(format!("badfamily:{}", other)),
     }
 }
 
-pub fn disc(family: &str, ps: &[&str], rng: &mut ScriptRng, n: usize) -> String {
-    let shu = |v: &u64| format!("{}", v);
+pub fn build_disc(family: &str, ps: &[&str]) -> Result<Dyn, String> {
     let u = |s: &str| s.parse::<u64>().expect("u64");
     match family {
-        "binomial" => ctor!(Binomial::new(u(ps[0]), f64::from_hex(ps[1])), rng, n, shu),
-        "geometric" => ctor!(Geometric::new(f64::from_hex(ps[0])), rng, n, shu),
-        "stdgeometric" => draw(&StandardGeometric, rng, n, shu),
-        "hypergeometric" => ctor!(Hypergeometric::new(u(ps[0]), u(ps[1]), u(ps[2])), rng, n, shu),
-        other => format!("badfamily:{}", other),
+        "binomial" => mk!(Binomial::new(u(ps[0]), f64::from_hex(ps[1]))),
+        "geometric" => mk!(Geometric::new(f64::from_hex(ps[0]))),
+        "stdgeometric" => Ok(boxed::<u64, _>(StandardGeometric)),
+        "hypergeometric" => mk!(Hypergeometric::new(u(ps[0]), u(ps[1]), u(ps[2]))),
+        other => Err(format!("badfamily:{}", other)),
     }
+}
+
+pub fn build(family: &str, ty: &str, ps: &[&str]) -> Result<Dyn, String> {
+    match ty {
+        "f32" => build_cont::<f32>(family, ps),
+        "f64" => build_cont::<f64>(family, ps),
+        "u64" => build_disc(family, ps),
+        other => Err(format!("badtype:{}", other)),
+    }
+}
+
+fn split_params(s: &str) -> Vec<&str> {
+    if s == "-" { vec![] } else { s.split(',').collect() }
 }
 
 pub fn line(toks: &[&str]) -> String {
-    let family = toks[1];
-    let ty = toks[2];
-    let ps: Vec<&str> = if toks[3] == "-" { vec![] } else { toks[3].split(',').collect() };
+    let ps = split_params(toks[3]);
     let seed = u64::from_str_radix(toks[4], 16).expect("seed");
     let words = parse_words(toks.get(5).copied().unwrap_or("-"));
     let n: usize = toks.get(6).map(|s| s.parse().unwrap()).unwrap_or(1);
+    let d = match build(toks[1], toks[2], &ps) { Ok(d) => d, Err(e) => return e };
     let mut rng = ScriptRng::new(words, seed);
-    match ty {
-        "f32" => cont::<f32>(family, &ps, &mut rng, n),
-        "f64" => cont::<f64>(family, &ps, &mut rng, n),
-        "u64" => disc(family, &ps, &mut rng, n),
-        other => format!("badtype:{}", other),
+    let mut out: Vec<String> = vec![];
+    for _ in 0..n {
+        match catch_unwind(AssertUnwindSafe(|| (d.0)(&mut rng))) {
+            Ok(v) => out.push(format!("{}:{}", v.show(), rng.count)),
+            Err(_) => { out.push("panic".into()); break; }
+        }
     }
+    out.join(";")
+}
+
+// ---------------------------------------------------------------------------------------------
+/// support predicate of the documented distribution (property C03), on the real crate's output
+pub fn in_support(family: &str, ty: &str, ps: &[&str], v: Val) -> Result<(), String> {
+    let pf: Vec<f64> = if ty == "u64" { vec![] } else {
+        ps.iter().map(|s| if ty == "f32" { f32::from_hex(s) as f64 } else { f64::from_hex(s) }).collect() };
+    match v {
+        Val::F(x, _, is32) => {
+            let ulp = |b: f64| if is32 { (b as f32).ulp_of() } else { b.ulp_of() };
+            if x.is_nan() { return Err("NaN".into()); }
+            // documented: Zeta returns +inf when s is so close to 1 that the proposal overflows
+            if x.is_infinite() && family == "zeta" && x > 0.0 { return Ok(()); }
+            if x.is_infinite() { return Err(format!("{}", x)); }
+            let ok = match family {
+                "stdnormal" | "normal" | "cauchy" | "gumbel" | "skewnormal" | "nig" | "studentt" => true,
+                "lognormal" | "exp1" | "exp" | "gamma" | "chisq" | "fisherf" | "weibull" | "invgauss" => x >= 0.0,
+                "pareto" => x >= pf[0],
+                "frechet" => x >= pf[0],
+                "beta" => (0.0..=1.0).contains(&x),
+                "triangular" | "pert" => {
+                    let big = pf[0].abs().max(pf[1].abs());
+                    let tol = 4.0 * ulp(big);
+                    x >= pf[0] - tol && x <= pf[1] + tol
+                }
+                "poisson" => x >= 0.0 && x.fract() == 0.0,
+                "zeta" => x >= 1.0 && x.fract() == 0.0,
+                "zipf" => x >= 1.0 && x <= pf[0] && x.fract() == 0.0,
+                _ => true,
+            };
+            if ok { Ok(()) } else { Err(format!("{}", x)) }
+        }
+        Val::U(k) => {
+            let u = |s: &str| s.parse::<u64>().unwrap();
+            let ok = match family {
+                "binomial" => k <= u(ps[0]),
+                "hypergeometric" => {
+                    let (n, kk, s) = (u(ps[0]) as u128, u(ps[1]) as u128, u(ps[2]) as u128);
+                    let lo = (s + kk).saturating_sub(n);
+                    let hi = s.min(kk);
+                    (k as u128) >= lo && (k as u128) <= hi
+                }
+                _ => true,
+            };
+            if ok { Ok(()) } else { Err(format!("{}", k)) }
+        }
+    }
+}
+
+fn splitmix(state: &mut u64) -> u64 {
+    *state = state.wrapping_add(0x9E3779B97F4A7C15);
+    let mut z = *state;
+    z = (z ^ (z >> 30)).wrapping_mul(0xBF58476D1CE4E5B9);
+    z = (z ^ (z >> 27)).wrapping_mul(0x94D049BB133111EB);
+    z ^ (z >> 31)
+}
+
+/// sweep: every one of the 2^24 high-bit patterns of the word at position `pos`
+pub fn sweep(toks: &[&str]) -> String {
+    let (family, ty) = (toks[1], toks[2]);
+    let ps = split_params(toks[3]);
+    let seed = u64::from_str_radix(toks[4], 16).expect("seed");
+    let pos: usize = toks[5].parse().expect("pos");
+    let dump = toks.get(6).copied();
+    let d = match build(family, ty, &ps) { Ok(d) => d, Err(e) => return e };
+    // fixed prefix words (positions < pos) and fixed low 40 bits, from the seed
+    let mut st = seed;
+    let prefix: Vec<u64> = (0..pos).map(|_| splitmix(&mut st)).collect();
+    let low = splitmix(&mut st) & ((1u64 << 40) - 1);
+    let (mut bad, mut nonfinite, mut panics, mut nonmono, mut maxwords) = (0u64, 0u64, 0u64, 0u64, 0u64);
+    let mut first: Option<String> = None;
+    let mut prev: Option<f64> = None;
+    let mut dir = 0i32; // monotone direction seen so far (only meaningful for pos 0 single-draw samplers)
+    let mut file = dump.map(|p| std::io::BufWriter::new(std::fs::File::create(p).expect("dump file")));
+    for k in 0u64..(1u64 << 24) {
+        let mut words = prefix.clone();
+        words.push((k << 40) | low);
+        let mut rng = ScriptRng::new(words, seed ^ 0x5555);
+        match catch_unwind(AssertUnwindSafe(|| (d.0)(&mut rng))) {
+            Ok(v) => {
+                maxwords = maxwords.max(rng.count);
+                if let Err(why) = in_support(family, ty, &ps, v) {
+                    if matches!(v, Val::F(x, _, _) if !x.is_finite()) { nonfinite += 1 } else { bad += 1 }
+                    if first.is_none() { first = Some(format!("{:06x}:{}:{}", k, v.show(), why)); }
+                }
+                if let Val::F(x, b, _) = v {
+                    if let Some(p) = prev {
+                        if x.is_finite() && p.is_finite() {
+                            let s = if x > p { 1 } else if x < p { -1 } else { 0 };
+                            if s != 0 { if dir == 0 { dir = s } else if s != dir { nonmono += 1 } }
+                        }
+                    }
+                    prev = Some(x);
+                    if let Some(f) = file.as_mut() { f.write_all(&(b as u32).to_le_bytes()).unwrap(); }
+                }
+            }
+            Err(_) => {
+                panics += 1;
+                if first.is_none() { first = Some(format!("{:06x}:panic:", k)); }
+                if let Some(f) = file.as_mut() { f.write_all(&0x7fc00000u32.to_le_bytes()).unwrap(); }
+            }
+        }
+    }
+    format!("n=16777216 bad={} nonfinite={} panic={} nonmono={} maxwords={} first={}", bad, nonfinite, panics, nonmono, maxwords,
+            first.unwrap_or_else(|| "-".into()))
+}
+
+/// many: n samples from one seeded stream (optionally with one adversarial word at a position):
+/// support, finiteness, words per call. `many <family> <ty> <params> <seedhex> <n> [pos:hexword]`
+pub fn many(toks: &[&str]) -> String {
+    let (family, ty) = (toks[1], toks[2]);
+    let ps = split_params(toks[3]);
+    let seed = u64::from_str_radix(toks[4], 16).expect("seed");
+    let n: u64 = toks[5].parse().expect("n");
+    let adv: Option<(usize, u64)> = toks.get(6).map(|s| { let (a, b) = s.split_once(':').unwrap(); (a.parse().unwrap(), u64::from_str_radix(b, 16).unwrap()) });
+    let d = match build(family, ty, &ps) { Ok(d) => d, Err(e) => return e };
+    let (mut bad, mut nonfinite, mut panics, mut total, mut maxw) = (0u64, 0u64, 0u64, 0u64, 0u64);
+    let mut first: Option<String> = None;
+    let mut st = seed;
+    for i in 0..n {
+        let s = splitmix(&mut st);
+        let mut words: Vec<u64> = vec![];
+        if let Some((pos, w)) = adv {
+            let mut t = s;
+            for _ in 0..pos { words.push(splitmix(&mut t)); }
+            words.push(w);
+        }
+        let mut rng = ScriptRng::new(words.clone(), s);
+        rng.limit = 100_000;
+        match catch_unwind(AssertUnwindSafe(|| (d.0)(&mut rng))) {
+            Ok(v) => {
+                total += rng.count; maxw = maxw.max(rng.count);
+                if let Err(why) = in_support(family, ty, &ps, v) {
+                    if matches!(v, Val::F(x, _, _) if !x.is_finite()) { nonfinite += 1 } else { bad += 1 }
+                    if first.is_none() { first = Some(format!("{}:{:x}:{}:{}", i, s, v.show(), why)); }
+                }
+            }
+            Err(_) => {
+                panics += 1; maxw = maxw.max(rng.count);
+                if first.is_none() { first = Some(format!("{}:{:x}:panic(words={}):", i, s, rng.count)); }
+            }
+        }
+    }
+    format!("n={} bad={} nonfinite={} panic={} meanwords={:.3} maxwords={} first={}", n, bad, nonfinite, panics,
+            total as f64 / n.max(1) as f64, maxw, first.unwrap_or_else(|| "-".into()))
+}
+
+/// lat: for every position < npos and every lattice word: n samples on seeded streams with that one word replaced.
+/// `lat <family> <ty> <params> <seedhex> <n> <npos> <w1,w2,...>` -> aggregated counts and up to 8 failures `pos:word:seed:value:why`
+pub fn lat(toks: &[&str]) -> String {
+    let (family, ty) = (toks[1], toks[2]);
+    let ps = split_params(toks[3]);
+    let seed = u64::from_str_radix(toks[4], 16).expect("seed");
+    let n: u64 = toks[5].parse().expect("n");
+    let npos: usize = toks[6].parse().expect("npos");
+    let lattice = parse_words(toks[7]);
+    let d = match build(family, ty, &ps) { Ok(d) => d, Err(e) => return e };
+    let (mut evals, mut total, mut maxw) = (0u64, 0u64, 0u64);
+    let mut fails: Vec<String> = vec![];
+    let mut nfail = 0u64;
+    let mut st = seed;
+    for pos in 0..npos {
+        for &w in &lattice {
+            for _ in 0..n {
+                let s = splitmix(&mut st);
+                let mut t = s;
+                let mut words: Vec<u64> = (0..pos).map(|_| splitmix(&mut t)).collect();
+                words.push(w);
+                let mut rng = ScriptRng::new(words, s);
+                rng.limit = 100_000;
+                evals += 1;
+                match catch_unwind(AssertUnwindSafe(|| (d.0)(&mut rng))) {
+                    Ok(v) => {
+                        total += rng.count; maxw = maxw.max(rng.count);
+                        if let Err(why) = in_support(family, ty, &ps, v) {
+                            nfail += 1;
+                            if fails.len() < 8 { fails.push(format!("{}:{:x}:{:x}:{}:{}", pos, w, s, v.show(), why)); }
+                        }
+                    }
+                    Err(_) => {
+                        nfail += 1; maxw = maxw.max(rng.count);
+                        if fails.len() < 8 { fails.push(format!("{}:{:x}:{:x}:panic:words={}", pos, w, s, rng.count)); }
+                    }
+                }
+            }
+        }
+    }
+    format!("n={} fail={} meanwords={:.3} maxwords={} fails={}", evals, nfail, total as f64 / evals.max(1) as f64, maxw,
+            if fails.is_empty() { "-".to_string() } else { fails.join(",") })
 }
